@@ -157,6 +157,7 @@ func runC14MarshalAppend(c *Ctx) {
 
 func runC14(c *Ctx) {
 	p := c.P
+	defer c.ImportRules("C11", "C11.13")
 	defer runC14MarshalAppend(c)
 	// clause shared with C03 (see DESIGN.md section 6a)
 	defer c.ImportRules("C03", "C03.13")
@@ -536,13 +537,47 @@ func runC14(c *Ctx) {
 			fa, ok := d.Call.Args[0].(*ssa.FieldAddr)
 			return ok && FieldOfAddr(fa) == muF
 		}
+		// fields that are never stored outside the composite literal that creates the adapter
+		// are immutable after publication: reading them needs no lock (e.g. the wrapped body,
+		// which Close must close BEFORE locking, because Read holds the lock while blocked)
+		immutable := func(f *types.Var) bool {
+			key := "immut|" + fieldOwner(f, p) + "." + N(f)
+			if v, ok := p.memo[key]; ok {
+				return v.(bool)
+			}
+			res := true
+			for _, fn := range p.Funcs {
+				for _, w := range FieldWrites(fn) {
+					if w.Field == f && !w.Fresh {
+						res = false
+					}
+				}
+			}
+			p.memo[key] = res
+			return res
+		}
 		touchesField := func(in ssa.Instruction) bool {
 			fa, ok := in.(*ssa.FieldAddr)
 			if !ok || FieldOfAddr(fa) == muF {
 				return false
 			}
 			_, isRecv := fa.X.(*ssa.Parameter)
-			return isRecv && fa.X == ssa.Value(in.Parent().Params[0])
+			if !isRecv || fa.X != ssa.Value(in.Parent().Params[0]) {
+				return false
+			}
+			if immutable(FieldOfAddr(fa)) {
+				// only loads of an immutable field are harmless
+				onlyLoads := true
+				for _, ref := range *fa.Referrers() {
+					if u, isLoad := ref.(*ssa.UnOp); !isLoad || u.Op != token.MUL {
+						onlyLoads = false
+					}
+				}
+				if onlyLoads {
+					return false
+				}
+			}
+			return true
 		}
 		for _, m := range methods {
 			hasLock := false
